@@ -17,7 +17,7 @@ CHECKS["C11"] = {
             "that the checksum routines return without exception and accept exactly the packets whose RFC 1071 receiver sum is "
             "0xffff; every carry/fold boundary (sums of exactly 0x10000, fields 0x0000/0xffff) is inside the symbolic domain.",
     "note": TRUST + "dpkt is replaced by a spec-level parser (tlv/models/dpkt_model.py), compared with real dpkt on every replayed/validated frame. "
-            "UDP checksum field 0 is outside the claim. Segment lengths are bounded as listed in the evidence.",
+            "UDP checksum field 0 is outside the claim over IPv4 (RFC 768: no checksum computed); over IPv6 it is inside, except the one zero field the RFC 1071 receiver rule accepts. Segment lengths are bounded as listed in the evidence.",
 }
 CHECKS["C17"] = {
     "technique": "symbolic execution of parse_frames and every frame class: one loop iteration on arbitrary bytes (inductive step), whole loop on all short strings, and a reference encoder with symbolic 62-bit fields and symbolic var-int widths; an exhausted per-path decision budget inside the parser is replayed as a non-termination candidate",
